@@ -4,6 +4,7 @@ import (
 	"bytes"
 	"fmt"
 	"regexp"
+	"strconv"
 	"strings"
 	"unicode/utf8"
 
@@ -15,8 +16,9 @@ import (
 type C09 struct {
 	w     Workload
 	stats *Stats
-	cuts  []*Case // enumerated truncation cases (built in Prepare)
+	cuts  []*Case // enumerated cases (truncation offsets, flag values; built in Prepare)
 	nRand int
+	nflag int
 }
 
 func NewC09(st *Stats) *C09 { return &C09{stats: st} }
@@ -38,6 +40,9 @@ func (p *C09) Prepare(env *Env, tier string, seed uint64) error {
 	if tier == "replay" {
 		return nil
 	}
+	// flag-value enumeration: every flag of every command with every value of
+	// the list (the input is a small valid one, so the flag decides)
+	p.enumFlags(seed)
 	// cut-point enumeration: every truncation offset of nSent sentences
 	r := model.NewRand(seed, "C09/cuts")
 	for i := 0; i < nSent; i++ {
@@ -54,6 +59,75 @@ func (p *C09) Prepare(env *Env, tier string, seed uint64) error {
 		}
 	}
 	return nil
+}
+
+func (p *C09) enumFlags(seed uint64) {
+	r := model.NewRand(seed, "C09/flags")
+	text := "C[1] G_7/B[1,1/2]{txt=hi} Am[2]"
+	dtext := "1[1] 5_7/7[1,1/2]{txt=hi} 6m[2]"
+	doc := goodInst + "- chord:\n    degree: \"5\"\n    name: \"7\"\n    base: \"3\"\n  values:\n    - \"1\"\n    - \"1/2\"\n  meta:\n    txt: hi\n- values:\n    - \"2\"\n"
+	type cmdSpec struct {
+		argv  []string
+		input string
+	}
+	cmds := []cmdSpec{
+		{[]string{"text", "parse"}, text}, {[]string{"text", "conv", "syllable"}, text}, {[]string{"text", "conv", "degree"}, dtext},
+		{[]string{"write"}, doc}, {[]string{"write", "event"}, doc}, {[]string{"write", "parse"}, doc}, {[]string{"write", "conv", "-c", "cmt"}, doc},
+		{[]string{"info", "attr", "list"}, ""}, {[]string{"info", "attr", "describe", "-t", "Minor7", "-r", "C#"}, ""},
+		{[]string{"info", "chord", "list"}, ""}, {[]string{"info", "chord", "describe", "-t", "C_7"}, ""},
+		{[]string{"info", "key", "list"}, ""}, {[]string{"info", "key", "describe", "--key", "A"}, ""}, {[]string{"info", "key", "conv", "--key", "C", "-c", "ps"}, ""},
+		{[]string{"gen", "attr"}, ""},
+	}
+	values := append([]string{}, flagValues...)
+	values = append(values, "32767", "32768", "40000", "128", "127", "-0", "00", "1.5", "1,2", "a,b", "cmt", "cmt,cmt", "ép", "p→d", "C#m", "Cb", "B#", "E♭", "c", "8/8", "3/0", "256/4", "4/256")
+	for _, cs := range cmds {
+		cmd := CommandOf(cs.argv)
+		for _, f := range flagSpecs {
+			if f.name == "--attr" || f.name == "--chord" || f.name == "-o" {
+				continue
+			}
+			applies := false
+			for _, c := range f.cmds {
+				if strings.HasPrefix(cmd, c) {
+					applies = true
+				}
+			}
+			if !applies {
+				continue
+			}
+			for _, v := range values {
+				if f.name == "--track" {
+					if n, err := strconv.Atoi(v); err == nil && n > 1000 && n <= 65535 && v != "32768" && v != "40000" {
+						continue // legitimate but heavy (N^2 ticks); sampled elsewhere
+					}
+				}
+				if f.name == "-d" {
+					if n, err := strconv.Atoi(v); err == nil && n > 1500 {
+						continue
+					}
+					if len(v) > 6 && v[0] >= '1' && v[0] <= '9' {
+						continue
+					}
+				}
+				argv := append([]string{}, cs.argv...)
+				// replace an occurrence already there
+				for j := 0; j+1 < len(argv); j++ {
+					if argv[j] == f.name {
+						argv = append(argv[:j:j], argv[j+2:]...)
+						break
+					}
+				}
+				argv = append(argv, f.name, v)
+				st := Step{Step: simrt.Step{Argv: argv, Seed: r.U64()}}
+				if cs.input != "" {
+					st.Stdin = &simrt.Stream{Data: []byte(cs.input)}
+				}
+				p.cuts = append(p.cuts, &Case{Property: "C09", Kind: "single", Seed: seed, Run: 1_000_000 + len(p.cuts), Steps: []Step{st},
+					Labels: []string{"fault:F11:flag:" + f.name, "flag-enumeration"}})
+				p.nflag++
+			}
+		}
+	}
 }
 
 func (p *C09) Runs(tier string) int { return p.nRand + len(p.cuts) }
@@ -935,7 +1009,7 @@ func (p *C09) Shrinks(c *Case) []*Case {
 }
 
 func (p *C09) Extra() map[string]any {
-	return map[string]any{"cut_points_enumerated": len(p.cuts)}
+	return map[string]any{"cut_points_enumerated": len(p.cuts) - p.nflag, "flag_values_enumerated": p.nflag}
 }
 
 func (p *C09) Rule() string {
